@@ -332,7 +332,9 @@ class Model:
         if not parents:
             raise Skip('no namespace available')
         reloc_here = 'iso' in parents and self.rr and self.level < 4 and (depth(parents['iso']) + 1) % 8 == 0
-        nm = self._new_names(op, True, None if reloc_here else parents)      # relocated directories share one RR_MOVED
+        # relocated directories share one RR_MOVED, where the library renames the second of two equal identifiers:
+        # names are reused there only on request (reloctwins profile)
+        nm = self._new_names(op, True, None if (reloc_here and not op.get('twin')) else parents)
         paths = {ns: join(parents[ns], nm[ns]) for ns in parents}
         kw = {}
         mode = op.get('mode')
